@@ -9,8 +9,16 @@ tie    : configuration sweep through the PUBLIC API (harness/c01.cpp): method x 
          watchdog per call.  The real outcome class (returned shape / exception type / crash / hang) is
          compared with the outcome class decided by the EXTRACTED Coq model, and the extracted index
          tables are evaluated on every configuration (they must be violation-free, as the theorem says).
-search : when a proof obligation or the correspondence breaks, a boundary-aimed sweep at a larger budget
-         (all methods x rank boundaries d in {D, D+1, k, k+1, L, L+1, N-2, N-1}) looks for a crashing input.
+tie T  : three tables are regenerated from the working tree on every run into files this check owns:
+         coq/gen/ShapesSrc.v (translate/t_shapes.py: sizing / index expressions of spe.hpp, find_neighbors,
+         locally_linear.hpp, tsne.hpp), coq/gen/Validate_C01.v (translate/t_val.py: the clauses of validate()),
+         coq/gen/EigSelect_C01.v (translate/t_eig.py: eigen slices).  Shapes_Proof_Tie.v proves, for all sizes,
+         that each generated expression denotes what the hand-written model uses: an edit re-opens an obligation.
+search : when a proof obligation or the correspondence breaks: (1) model-guided: the extracted detector
+         src_differs_mask tells on which requests of a box (all methods x small N x d x k x keywords) the
+         regenerated tables and the model part; those requests run on the real library first; (2) a
+         boundary-aimed sweep at a larger budget (all methods x rank boundaries d in {D, D+1, k, k+1, L, L+1,
+         N-2, N-1}) looks for a crashing input.
 """
 import concurrent.futures
 import json
@@ -18,6 +26,7 @@ import math
 import os
 import random
 import re
+import sys
 
 import vlib
 
@@ -32,6 +41,9 @@ TRUSTED = [
     "Python with the same double expressions as the C++ (their exact semantics is property C14)",
     "extraction (ExtrOcamlBasic only) + OCaml + coq/extract/c01_driver.ml (parsing/printing)",
     "finiteness of returned entries is a TEST on the generic stream (numerical, not proved)",
+    "translators t_shapes.py (regex + integer-expression parser over four headers), t_val.py (C14's) and t_eig.py "
+    "(C05's): trusted to report the expressions that are in the source; a statement they cannot read is recorded "
+    "as 'tie not renewed' (the sweep still runs), a statement they read differently re-opens the Coq obligations",
 ]
 
 METHODS = ["klle", "npe", "kltsa", "lltsa", "hlle", "la", "lpp", "dm", "isomap", "lisomap", "mds", "lmds",
@@ -89,8 +101,14 @@ def gen_data(kind, N, D, k, seed):
 
 
 # ----------------------------------------------------------------------------- cases
+def just(x, up):
+    """the double next to x (one ulp above / below)"""
+    return math.nextafter(x, math.inf if up else -math.inf)
+
+
 def scalar_defaults(rng, m, N, boundary):
-    """keyword values; mostly valid and off the boundary, sometimes on / beyond it."""
+    """keyword values; mostly valid and off the boundary, sometimes on / one ulp inside / one ulp beyond /
+    far beyond it."""
     p = {}
     if m in ("lmds", "lisomap"):
         r = rng.random()
@@ -98,8 +116,12 @@ def scalar_defaults(rng, m, N, boundary):
             p["lr"] = rng.choice([0.5, 0.75, 1.0, 0.4])
         elif r < 0.8:
             p["lr"] = 3.0 / N if N else 0.5      # exactly the lower bound
+        elif r < 0.85:
+            p["lr"] = just(3.0 / N, False) if N else 0.5     # one ulp below the lower bound
         elif r < 0.9:
             p["lr"] = 0.01                       # below 3/N for N < 300
+        elif r < 0.95:
+            p["lr"] = just(1.0, True)            # one ulp above 1
         else:
             p["lr"] = 1.5
     if m == "tsne":
@@ -109,8 +131,10 @@ def scalar_defaults(rng, m, N, boundary):
             p["perp"] = max(0.34, min(hi * 0.6, 5.0)) if hi > 0.4 else hi * 0.5
         elif r < 0.75:
             p["perp"] = hi
-        elif r < 0.85:
+        elif r < 0.82:
             p["perp"] = 0.0
+        elif r < 0.92:
+            p["perp"] = just(hi, True)           # one ulp beyond (N - 1) / 3: K would reach N
         else:
             p["perp"] = hi + 1.0
         p["theta"] = rng.choice([0.0, 0.5, 0.5, 0.2]) if (not boundary or rng.random() < 0.9) else -0.5
@@ -352,6 +376,10 @@ def run_model(ctx, mexe, cases, variant, lens_by_id=None):
         except ValueError:
             continue
         f7 = f[-1] == "F7"
+        src = 0
+        for tok in f[2:]:
+            if re.fullmatch(r"S\d+", tok):
+                src = int(tok[1:])
         if f[1] == "SHAPE":
             out[cid] = {"cls": "shape", "rows": int(f[2]), "cols": int(f[3]), "f7": f7}
         elif f[1] == "EXC":
@@ -360,6 +388,8 @@ def run_model(ctx, mexe, cases, variant, lens_by_id=None):
             out[cid] = {"cls": "crash", "site": int(f[2]), "idx": int(f[3]), "size": int(f[4]), "f7": f7}
         elif f[1] == "HANG":
             out[cid] = {"cls": "hang", "site": int(f[2]), "f7": f7}
+        if cid in out and src:
+            out[cid]["src"] = src
     if r.rc != 0 or len(out) != len(cases):
         raise vlib.BuildError("C01 model driver failed: rc=%s %s" % (r.rc, (r.err or r.out)[-400:]))
     return out
@@ -367,7 +397,47 @@ def run_model(ctx, mexe, cases, variant, lens_by_id=None):
 
 # ----------------------------------------------------------------------------- verdicts per case
 NUMERIC_EXC = {"eigendecomposition_error", "not_enough_memory_error"}
-FINITE_METHODS = {"pca", "ra", "passthru", "mds", "kpca"}
+# the finiteness clause (a TEST, labelled as such in the evidence): every method whose result is a function of
+# the data alone (dense solver, brute-force neighbours) + RandomProjection / PassThru
+FINITE_METHODS = {"pca", "ra", "passthru", "mds", "kpca", "klle", "kltsa", "hlle", "npe", "lltsa", "la", "lpp",
+                  "dm", "isomap"}
+
+
+def finiteness_interior(c):
+    """the hypotheses of the last sentence of C01: samples pairwise distinct and in general position,
+    target_dimension within the rank of the problem, no numeric parameter on the boundary of its range"""
+    m, N, D, d, k, p = c["m"], c["N"], c["D"], c["d"], c["k"], c["p"]
+    if c["kind"] != "generic" or m not in FINITE_METHODS or N < 6:
+        return False
+    if m in EIGEN and c["em"] != "dense":
+        return False
+    if m in USES_NB:
+        if c["nm"] != "brute" or not (3 < k < N - 1) or not p.get("cc", 1):
+            return False
+        if d > k - 1:
+            return False                  # local rank: the neighbourhood spans at most k directions
+    if m in ("klle", "kltsa", "hlle", "la", "dm"):
+        if d > N - 3:
+            return False                  # next to the F7 zone / the trivial eigenvector
+    if m in ("klle", "kltsa", "hlle"):
+        if d > D:
+            return False                  # the manifold has at most D dimensions: null space not unique
+    if m == "hlle" and k < 1 + d + d * (d + 1) // 2 + 1:
+        return False                      # Hessian estimator needs k > 1 + d + d(d+1)/2
+    if m in ("pca", "npe", "lltsa", "lpp") and d > min(D, N - 2):
+        return False
+    if m in ("mds", "kpca", "isomap") and d > min(D, N - 2):
+        return False                      # number of positive eigenvalues of the centred Gram matrix
+    if m in ("la", "lpp", "dm") and not (0.25 <= p.get("width", 1.0) <= 100.0):
+        return False
+    if m == "dm" and p.get("ts", 3) < 1:
+        return False
+    return scalars_ok(c)
+
+
+def new_stats():
+    return {"f7_seen": 0, "f7_silent": 0, "nonfinite_cases": 0, "numeric_exc": 0, "nonfinite_by_method": {},
+            "finite_checked": {}}
 
 
 def pub(c):
@@ -411,12 +481,13 @@ def judge(ctx, c, real, model, build, stats):
             return
         if real["nonfinite"]:
             stats["nonfinite_cases"] += 1
-            interior = (c["kind"] == "generic" and c["m"] in FINITE_METHODS and d <= min(D, N - 1)
-                        and N >= 4)
-            if interior:
+            stats["nonfinite_by_method"][c["m"]] = stats["nonfinite_by_method"].get(c["m"], 0) + 1
+            if finiteness_interior(c):
                 ctx.violation(pub(c), "%d non-finite entries on generic data with target_dimension within the "
                                       "rank of the problem [%s]" % (real["nonfinite"], where))
                 return
+        if finiteness_interior(c) and build == "san":
+            stats["finite_checked"][c["m"]] = stats["finite_checked"].get(c["m"], 0) + 1
         if model["cls"] == "shape":
             return
         if model["cls"] == "crash" and SITE_FINDING.get(model["site"]) == "F7":
@@ -533,6 +604,87 @@ def boundary_cases(rng, start_id, per_method):
     return out
 
 
+def spe_cases(rng, start_id, quick):
+    """StochasticProximityEmbedding with the update count on both sides of its clamp N / 2, odd and even N,
+    both strategies (the two index sets [0, nu) and [nu, 2 nu) must fit N entries)"""
+    out = []
+    cid = start_id
+    for N in ([5, 8, 9] if quick else [3, 4, 5, 7, 8, 9, 15, 20, 21, 51]):
+        for speg in (0, 1):
+            if N < 5 and not speg:
+                continue                                   # local strategy needs 3 <= k < N
+            for spen in sorted({max(1, N // 2 - 1), N // 2, (N + 1) // 2, N // 2 + 1, N, 100}):
+                c = make_case(rng, cid, m="spe", N=N, D=3, d=min(2, N - 1), k=3 if N > 3 else 2, kind="generic",
+                              nm="brute", em="dense", boundary=False, speg=speg, spen=spen, maxit=12)
+                c["p"]["cc"] = 0
+                out.append(c)
+                cid += 1
+    return out
+
+
+def finite_cases(rng, start_id, per_method):
+    """the finiteness clause: samples in general position (Gaussian), target_dimension within every rank,
+    keywords away from their bounds; one stream per method whose result depends on the data only"""
+    out = []
+    cid = start_id
+    for m in sorted(FINITE_METHODS):
+        for i in range(per_method):
+            N = [12, 20, 9, 30, 16, 50][i % 6]
+            D = [3, 4, 5, 3][i % 4]
+            d = 1 + (i % 2)
+            k = [5, 6, 7][i % 3]
+            if m == "hlle":
+                k = max(k, 2 + d + d * (d + 1) // 2)
+            over = {}
+            if m in ("la", "lpp", "dm"):
+                over["width"] = [1.0, 4.0, 10.0][i % 3]
+            if m == "dm":
+                over["ts"] = 1 + (i % 3)
+            c = make_case(rng, cid, m=m, N=N, D=D, d=d, k=min(k, N - 2), kind="generic", nm="brute", em="dense",
+                          boundary=False, **over)
+            c["p"]["cc"] = 1
+            out.append(c)
+            cid += 1
+    return out
+
+
+def large_cases(rng, start_id, n, sizes):
+    """requests beyond N = 50 (thorough tier): every method, mostly valid keywords, generic / lattice / duplicated data"""
+    out = []
+    for i in range(n):
+        m = METHODS[i % len(METHODS)]
+        N = rng.choice(sizes)
+        if m in ("tsne", "ms", "hlle", "spe", "fa"):
+            N = min(N, 120)
+        D = rng.choice([2, 3, 5, 8])
+        k = rng.choice([5, 8, 12, N - 1, N - 2])
+        L = None
+        over = {}
+        if m in ("lmds", "lisomap"):
+            over["lr"] = rng.choice([0.1, 0.25, 3.0 / N])
+            L = int(N * over["lr"])
+        if m == "tsne":
+            over["perp"] = rng.choice([5.0, 10.0, (N - 1) / 3.0])
+            over["theta"] = rng.choice([0.0, 0.5])
+        if m == "ms":
+            over["maxit"] = 3
+        if m == "spe":
+            over["maxit"] = 20
+            over["spen"] = rng.choice([N // 2, (N + 1) // 2, 100, N])
+        if m == "fa":
+            over["maxit"] = 5
+        dmax = {"hlle": 4, "tsne": 3}.get(m, 12)
+        ds = [x for x in (1, 2, 3, D, D + 1, (L or 0), (L or 0) + 1, min(k, dmax), N - 1, N - 2) if 1 <= x <= N]
+        d = rng.choice(ds)
+        if m == "hlle":
+            d = min(d, 4)
+        c = make_case(rng, start_id + i, m=m, N=N, D=D, d=d, k=k, boundary=False,
+                      kind=rng.choice(["generic", "generic", "lattice", "duplicated"]),
+                      em=rng.choice(["dense", "randomized"]) if m in EIGEN else "dense", **over)
+        out.append(c)
+    return out
+
+
 def random_cases(rng, start_id, n, max_N):
     out = []
     for i in range(n):
@@ -562,8 +714,131 @@ def corpus_cases(ctx, start_id):
     return out
 
 
+# ----------------------------------------------------------------------------- tie T: the three tables
+GEN = {"shapes": "ShapesSrc.v", "validate": "Validate_C01.v", "eig": "EigSelect_C01.v"}
+
+
+def translate_all(ctx):
+    """regenerates coq/gen/{ShapesSrc,Validate_C01,EigSelect_C01}.v from ctx.repo.
+    -> ({name: text or None}, {name: "regenerated"|"unchanged"|"unreadable: .."})"""
+    tdir = os.path.join(ctx.verif, "translate")
+    if tdir not in sys.path:
+        sys.path.insert(0, tdir)
+    import t_eig
+    import t_shapes
+    import t_val
+    texts, status = {}, {}
+
+    def shapes():
+        return t_shapes.translate(ctx.repo)[0]
+
+    def validate():
+        t = t_val.translate(ctx.repo)[0]
+        return t.replace("(* GENERATED by translate/t_val.py from the C++ working tree -- do not edit.",
+                         "(* GENERATED by translate/t_val.py from the C++ working tree (copy owned by property C01, "
+                         "written by checks/c01.py) -- do not edit.", 1)
+
+    def eig():
+        return "(* copy owned by property C01, written by checks/c01.py *)\n" + t_eig.emit(t_eig.parse(ctx.repo))
+
+    for name, fn, err in (("shapes", shapes, t_shapes.TranslateError), ("validate", validate, t_val.TranslateError),
+                          ("eig", eig, t_eig.TranslateError)):
+        try:
+            texts[name] = fn()
+        except err as ex:
+            texts[name] = None
+            status[name] = "unreadable: " + str(ex)[:300]
+        except (OSError, ValueError, KeyError, IndexError, AttributeError, TypeError, RecursionError) as ex:
+            texts[name] = None
+            status[name] = "unreadable: %s: %s" % (type(ex).__name__, str(ex)[:300])
+    for name, text in texts.items():
+        if text is None:
+            continue
+        path = os.path.join(ctx.verif, "coq", "gen", GEN[name])
+        status[name] = "regenerated" if t_shapes.write_if_changed(path, text) else "unchanged"
+    return texts, status
+
+
+def tables_in_place(ctx, texts):
+    """True if the generated files still hold what this run wrote (another run of this check may have
+    regenerated them from a different tree in the meantime)"""
+    for name, text in texts.items():
+        if text is None:
+            continue
+        try:
+            if open(os.path.join(ctx.verif, "coq", "gen", GEN[name])).read() != text:
+                return False
+        except OSError:
+            return False
+    return True
+
+
+def suspect_cases(ctx, mexe, rng, limit):
+    """model-guided part of the search phase: requests of a small box on which a table regenerated from the
+    source and the hand-written model disagree (extracted src_differs_mask), most informative first"""
+    box = []
+    cid = 700000
+    for m in METHODS:
+        for N in (4, 5, 7, 8, 9, 12):
+            D = 3
+            for k in sorted({3, 4, N - 1} & set(range(3, N))) or [3]:
+                over_list = [{}]
+                if m in ("lmds", "lisomap"):
+                    over_list = [{"lr": 0.5}, {"lr": 1.0}]
+                elif m == "tsne":
+                    hi = (N - 1) / 3.0
+                    over_list = [{"perp": hi, "theta": 0.5}, {"perp": hi, "theta": 0.0}, {"perp": hi / 2, "theta": 0.5}]
+                elif m == "spe":
+                    over_list = [{"speg": g, "spen": n_, "maxit": 12} for g in (0, 1)
+                                 for n_ in sorted({1, N // 2, (N + 1) // 2, N, 100})]
+                elif m == "ms":
+                    over_list = [{"maxit": 3}]
+                elif m == "fa":
+                    over_list = [{"maxit": 5}]
+                for over in over_list:
+                    L = int(N * over["lr"]) if "lr" in over else None
+                    for d in d_candidates(N, D, k, L):
+                        for em in (["dense", "randomized"] if m in EIGEN else ["dense"]):
+                            c = make_case(rng, cid, m=m, N=N, D=D, d=d, k=k, kind="generic", nm="brute", em=em,
+                                          boundary=False, seed=7, **over)
+                            c["p"]["cc"] = 0
+                            box.append(c)
+                            cid += 1
+    model = run_model(ctx, mexe, box, HEAD_VARIANT)
+    sus = [c for c in box if model[c["id"]].get("src")]
+    # the hand model lets the request through (shape) or rejects it while a table says otherwise; requests
+    # the base range check rejects anyway are the least informative
+    def rank(c):
+        mo = model[c["id"]]
+        return (0 if mo["cls"] == "shape" else 1 if mo["cls"] == "exc" else 2, c["N"], c["d"])
+    sus.sort(key=rank)
+    picked, per = [], {}
+    for c in sus:
+        key = (c["m"], model[c["id"]]["src"], model[c["id"]]["cls"])
+        if per.get(key, 0) >= 3:
+            continue
+        per[key] = per.get(key, 0) + 1
+        picked.append(c)
+        if len(picked) >= limit:
+            break
+    return picked, len(box), len(sus)
+
+
 def search_phase(ctx, exes, mexe, rng, stats, budget):
-    """boundary-aimed sweep at a larger budget, every method, dense solver, connectivity check off"""
+    """(1) model-guided suspects, (2) boundary-aimed sweep at a larger budget, every method, dense solver,
+    connectivity check off"""
+    n = 0
+    try:
+        picked, nbox, nsus = suspect_cases(ctx, mexe, rng, 60)
+        ctx.note("search phase, model-guided: %d of %d box requests are treated differently by the regenerated "
+                 "tables and the model; %d run on the library" % (nsus, nbox, len(picked)))
+        if picked:
+            evaluate(ctx, exes, mexe, picked, stats)
+            n += len(picked)
+            if ctx.has_violation():
+                return n
+    except vlib.BuildError as ex:
+        ctx.note("search phase, model-guided part failed: " + str(ex)[:200])
     cases = boundary_cases(rng, 500000, budget)
     for c in cases:
         if c["m"] in EIGEN:
@@ -571,7 +846,7 @@ def search_phase(ctx, exes, mexe, rng, stats, budget):
         c["p"]["cc"] = 0
         c["kind"] = "generic"
     evaluate(ctx, exes, mexe, cases, stats)
-    return len(cases)
+    return n + len(cases)
 
 
 def key_of(c):
@@ -607,26 +882,45 @@ def build_all(ctx, with_coq=False):
 
 def run(ctx):
     rng = ctx.rng
-    t_coq = 0.0
+    texts, tstatus = translate_all(ctx)
     exes, mexe = build_all(ctx, with_coq=True)
+    for attempt in range(2):
+        if tables_in_place(ctx, texts):
+            break
+        ctx.note("the generated tables were rewritten by a concurrent run: regenerating and rebuilding")
+        ctx._unshown[:] = [u for u in ctx._unshown if not u.startswith("proof obligations")]
+        texts, tstatus = translate_all(ctx)
+        exes, mexe = build_all(ctx, with_coq=True)
+    unreadable = {k: v for k, v in tstatus.items() if v.startswith("unreadable")}
+    for k, v in unreadable.items():
+        ctx.note("tie T not renewed for table `%s` (%s): the statements are written in a form the translator does "
+                 "not read; the differential sweep remains the tie for them and runs at the search budget" % (k, v))
     t_build = ctx.elapsed()
     quick = ctx.quick
-    stats = {"f7_seen": 0, "f7_silent": 0, "nonfinite_cases": 0, "numeric_exc": 0}
+    stats = new_stats()
     cases = corpus_cases(ctx, 1)
     ncorpus = len(cases)
     cases += boundary_cases(rng, 1000, 16 if quick else 44)
+    cases += spe_cases(rng, 50000, quick)
+    cases += finite_cases(rng, 60000, 3 if quick else 12)
     nboundary = len(cases) - ncorpus
     cases += random_cases(rng, 100000, 600 if quick else 6000, 50)
     nrandom = len(cases) - ncorpus - nboundary
+    nlarge = 0
+    if not quick:
+        cases += large_cases(rng, 300000, 400, [64, 100, 150, 200, 300])
+        nlarge = len(cases) - ncorpus - nboundary - nrandom
     model, results = evaluate(ctx, exes, mexe, cases, stats)
     ctx.note("phases (s): Coq + extraction, with both C++ builds in parallel %.0f; sweep %.0f" % (t_build, ctx.elapsed() - t_build))
     n = 2 * len(cases)
-    if ctx.is_unshown() and not ctx.has_violation():
+    if (ctx.is_unshown() or unreadable) and not ctx.has_violation():
         n += 2 * search_phase(ctx, exes, mexe, rng, stats, 12 if quick else 40)
     for b in exes:
         stats.pop("exe_" + b, None)
+    stats_fin, stats_nonfin = stats.get("finite_checked", {}), stats.get("nonfinite_by_method", {})
     distinct = {key_of(c) for c in cases if model[c["id"]]["cls"] in ("shape", "crash")}
-    hist = {"generators": {"corpus": ncorpus, "boundary": nboundary, "random": nrandom},
+    hist = {"generators": {"corpus": ncorpus, "boundary": nboundary, "random": nrandom, "large": nlarge},
+            "translators": tstatus,
             "method": {}, "N": {}, "kind": {}, "neighbors_method": {}, "eigen_method": {}, "stats": stats}
     for c in cases:
         for hk, ck in (("method", "m"), ("N", "N"), ("kind", "kind"), ("neighbors_method", "nm"),
@@ -646,10 +940,15 @@ def run(ctx):
                      "entries are sample indices): the harness dumps the real lists' lengths and feeds them to the model",
                      "scalar keyword predicates are evaluated in Python with the C++'s double expressions (C14)",
                      "F7 (known finding) is open: requests in the F7 zone are expected to crash and reported as KNOWN-FINDING"],
-        extra={"builds": ["sanitize(-O0 -g0)", "eigen_debug(-O0, no sanitizer)"], "watchdog_s": 10})
+        extra={"builds": ["sanitize(-O0 -g0)", "eigen_debug(-O0, no sanitizer)"], "watchdog_s": 10,
+               "obligation_files": ["coq/gen/ShapesSrc.v (regenerated)", "coq/gen/Validate_C01.v (regenerated)",
+                                    "coq/gen/EigSelect_C01.v (regenerated)", "coq/Properties_C01.v"],
+               "finiteness_clause": {"status": "TEST (not proved)", "checked_by_method": stats_fin,
+                                     "nonfinite_by_method": stats_nonfin}})
 
 
 def replay(ctx, case):
+    translate_all(ctx)
     exes, mexe = build_all(ctx)
     c = dict(case)
     c.setdefault("p", {})
@@ -658,7 +957,7 @@ def replay(ctx, case):
     c.setdefault("nm", "brute")
     c.setdefault("em", "dense")
     c["id"] = 1
-    stats = {"f7_seen": 0, "f7_silent": 0, "nonfinite_cases": 0, "numeric_exc": 0}
+    stats = new_stats()
     model, results = evaluate(ctx, exes, mexe, [c], stats, workers=1)
     print("model (head variant): %s" % model[1])
     for b in exes:
